@@ -58,18 +58,19 @@ func runC14(c *Ctx) {
 				}
 			}
 		}
-		inner := func(v ssa.Value) (*ssa.Lookup, bool) {
-			lk, ok := ssau.Unwrap(v).(*ssa.Lookup)
-			if !ok || lk.CommaOk {
-				return nil, false
+		// an inner (height -> list) map of the working set: a value of that map type derived from the working map,
+		// directly (working[addr]) or through a get-or-create helper
+		isInner := func(v ssa.Value) bool {
+			v = ssau.Unwrap(v)
+			if !strings.HasPrefix(v.Type().String(), "map[uint32]") {
+				return false
 			}
-			return lk, ssau.Unwrap(lk.X) == working
+			return ssau.DependsOn(v, func(y ssa.Value) bool { return y == working })
 		}
 		for k, fc := range ssau.CallsIn(f, fetchP) {
 			key := fmt.Sprintf("UtxoIndex.%s|fetch#%d", name, k+1)
-			// guarded by the absent arm of working[addr][h]
+			// guarded by the absent arm of inner[h]
 			var guard *ssa.Lookup
-			cut := ssau.NewCut()
 			for _, i := range ssau.Ifs(f) {
 				x, neg := ssau.StripNot(i.Cond)
 				e, ok := x.(*ssa.Extract)
@@ -77,42 +78,39 @@ func runC14(c *Ctx) {
 					continue
 				}
 				lk, ok := e.Tuple.(*ssa.Lookup)
-				if !ok || !lk.CommaOk {
-					continue
-				}
-				if _, isInner := inner(lk.X); !isInner {
+				if !ok || !lk.CommaOk || !isInner(lk.X) {
 					continue
 				}
 				c2 := ssau.NewCut()
 				c2.AddEdge(i.Block(), ssau.Arm(i, neg))
 				if !ssau.ReachFromEntry(f, c2).Instr(fc) {
 					guard = lk
-					cut = c2
 				}
 			}
-			_ = cut
 			c.R.Check("W-workingset", key+"|only on a working-set miss", guard != nil, c.posOf(fc), "the database fetch is reachable only through the absent arm of the comma-ok lookup of the working set")
 			if guard == nil {
 				continue
 			}
 			a := fc.Common().Args
-			addrL, _ := inner(guard.X)
 			sameVal := func(x, y ssa.Value) bool { return sameExpr(ssau.Unwrap(x), ssau.Unwrap(y), 0) }
+			addrArg := a[len(a)-2]
+			forAddr := func(m ssa.Value) bool {
+				return ssau.DependsOn(m, func(y ssa.Value) bool { return sameAddrOf(addrArg, y) })
+			}
 			okKey := sameVal(guard.Index, a[len(a)-1])
-			okAddr := addrL != nil && sameAddrOf(a[len(a)-2], addrL.Index)
+			okAddr := forAddr(guard.X)
 			// the store back
 			okStore := false
 			for _, b := range f.Blocks {
 				for _, in := range b.Instrs {
 					u, ok := in.(*ssa.MapUpdate)
-					if !ok {
+					if !ok || !isInner(u.Map) {
 						continue
 					}
-					l2, isInner := inner(u.Map)
-					if !isInner || !ssau.DependsOn(u.Value, func(y ssa.Value) bool { return ssau.IsCallTo(y, fetchP) && callOf(y) == fc.Value() }) {
+					if !ssau.DependsOn(u.Value, func(y ssa.Value) bool { return ssau.IsCallTo(y, fetchP) && callOf(y) == fc.Value() }) {
 						continue
 					}
-					okStore = sameVal(u.Key, guard.Index) && sameVal(l2.Index, addrL.Index)
+					okStore = sameVal(u.Key, guard.Index) && forAddr(u.Map)
 				}
 			}
 			c.R.Check("W-workingset", key+"|lookup, fetch and store use the same address and height", okKey && okAddr && okStore, c.posOf(fc), fmt.Sprintf("height key agrees with the fetch: %v, address agrees: %v, stored back under the same keys: %v", okKey, okAddr, okStore))
